@@ -81,6 +81,10 @@ def write_replay(prop, rec, ob):
                                env=dict(os.environ, PYTHONPATH=REPO, PYTHONDONTWRITEBYTECODE='1'))
             output = (r.stdout + r.stderr)[-4000:]
             reproduced = 'REPRODUCED' in r.stdout
+            if 'PROPERTY-HOLDS-ON-THE-COUNTEREXAMPLE' in r.stdout and not reproduced:
+                # the clause that failed is a strengthening of the property (a contract as strong as the verifier bears): on the solver's
+                # own counterexample the replay found the property itself to hold
+                reproduced = 'property-holds'
         except Exception as e:
             output = 'replay could not run: %r' % (e,)
     doc = {'property': prop, 'obligation': ob['name'], 'clause': ob['clause'], 'kind': ob['kind'],
@@ -249,6 +253,11 @@ def main():
             if o['backend'] == 'z3-bounded-instantiation' and not reproduced:
                 # a candidate that does not replay on the real code is no counterexample: the obligation stays undecided
                 undecided.append({'name': o['name'], 'reason': 'solver gave up; bounded candidate did not reproduce'})
+                continue
+            if reproduced == 'property-holds':
+                # never an alarm on code where the property holds: the stronger clause is undecided, not violated
+                undecided.append({'name': o['name'], 'reason': 'the contract clause (a strengthening of the property) fails, but on the counterexample the '
+                                                               'property itself holds - see %s' % path})
                 continue
             if best is None or (reproduced and not best[2]):
                 best = (path, o, reproduced)
